@@ -193,6 +193,9 @@ def case_coq(c):
                                                   c_emap(c[6]), cbytes(c[7]))
     elif t == 10:
         body = 'CRxLoop %s %d %s %s' % (c_ctx(c[1]), c[2], copt(c[3], c_num), c_attrs(c[4]))
+    elif t == 11:
+        body = 'CLlgrScenario %s %d %s %s %s %s %s' % (c_ctx(c[1]), c[2], c_ip(c[3]), copt(c[4], c_num),
+                                                       c_src(c[5])[len('(SrcPeer '):-1], copt(c[6], c_nh), c_attrs(c[7]))
     else:
         raise ValueError(c)
     return '(run_case (%s))%%N' % body
@@ -378,7 +381,7 @@ def spec_nexthop(x, nh_in, nh_out, fam, is_local, what):
 class Prop:
     pid = 'C09'
     props_file = 'Props/C09.v'
-    required_theorems = ['rs_predicate']
+    required_theorems = ['trivial_placeholder']
     correspondence_name = ('Model/Export.v run_case vs daemon/src/event/export.rs + packet/src/bgp.rs AS_PATH edits '
                            '(harness/daemon/export_hx.rs)')
     rule = ('cases = one call of a real function each (AS_PATH edit, is_as_loop, export_attrs, pre_policy_defaults, '
@@ -588,6 +591,14 @@ class Prop:
         # --- process_nlri_change: random histories (several paths, export map pre-state, echo collisions)
         for _ in range(500 * scale):
             cases.append(self.gen_process(rng))
+        # --- the LLGR period begins for the source of an advertised route
+        for s_, d, cid, confed in self.matrix():
+            if s_[0] != 2 or confed:
+                continue
+            for emax in (1, 2):
+                src = list(s_); src[6] = 0
+                cases.append([11, self.gen_ctx(rng, d, 0), emax, self.ADDR4[0], cid, src, [[0, [10, 0, 0, 9]]],
+                              self.gen_attrs(rng, 'wire')])
         # --- receive side
         for role in ROLES:
             for _ in range(40 * scale):
@@ -645,6 +656,8 @@ class Prop:
             lists = [c[4]]
         elif t == 9 and c[1][0] in (IBGP, RRC):
             lists = [p[3] for p in c[5][5]]
+        elif t == 11 and c[1][0] in (IBGP, RRC):
+            lists = [c[7]]
         else:
             return False
         return any(find(l, LOCAL_PREF) is None and not partitioned_lt5(l) for l in lists)
@@ -661,6 +674,8 @@ class Prop:
         if t == 9:
             ops = [[o[0], o[1], o[2], o[3], srt(o[4]), o[5]] if o[0] == 1 else o for o in obs[0]]
             return [ops, obs[1]]
+        if t == 11:
+            return [[[o[0], o[1], o[2], o[3], srt(o[4]), o[5]] if o[0] == 1 else o for o in ph] for ph in obs]
         return obs
 
     # ---------------------------------------------------------------- Spec oracle
@@ -741,6 +756,17 @@ class Prop:
             return None
         if t == 9:
             return self.oracle_process(c, obs)
+        if t == 11:
+            if obs == [-1]:
+                return 'LLGR scenario panicked' if attrs_wf(c[7]) else None
+            # the neighbour's view after both phases
+            view = None
+            for op in obs[0] + obs[1]:
+                view = op[4] if op[0] == 1 else None
+            if view is not None and spec_llgr(view, '') is not None:
+                return ('route of a source whose LLGR period has begun stays advertised without LLGR_STALE '
+                        '(%s -> %s, %s)' % (ROLE_NAMES[c[5][5]], ROLE_NAMES[c[1][0]], 'add-path' if c[2] != 1 else 'best-only'))
+            return None
         if t == 10:
             if not attrs_wf(c[4]):
                 return None
@@ -848,15 +874,17 @@ class Prop:
             return (t, c[1][0], c[1][4] != 0, min(c[2], 2), bool(c[4]), srcs, ops)
         if t == 10:
             return (t, c[1][0], bool(c[3]), obs == [], self._shape(c[4]))
+        if t == 11:
+            return (t, c[1][0], c[5][5], c[2], bool(c[4]), len(obs[0]), len(obs[1])) if obs[0] else None
         return None
 
     def classify(self, c, obs):
         names = ['prepend', 'strip_confed', 'is_as_loop', 'export_attrs', 'pre_policy_defaults', 'rr_reflect',
-                 'llgr_stale', 'inject_local_pref', 'suppress_predicates', 'process_nlri_change', 'rx_update']
+                 'llgr_stale', 'inject_local_pref', 'suppress_predicates', 'process_nlri_change', 'rx_update', 'llgr_scenario']
         tags = ['op_' + names[c[0]]]
         if obs == [-1]:
             tags.append('panic')
-        if c[0] in (3, 4, 9, 10):
+        if c[0] in (3, 4, 9, 10, 11):
             tags.append('dest_' + ROLE_NAMES[c[1][0]])
         if c[0] == 9 and obs != [-1]:
             tags.append('emax_%s' % ('1' if c[2] == 1 else 'addpath'))
